@@ -187,7 +187,27 @@ func init() {
 	v["verifIsSymbolic"] = func(m *machine, fr *frame, fn *ssa.Function, a []value) (value, bool) {
 		return !isConcrete(a[0]), true
 	}
-	v["verifFail"] = func(m *machine, fr *frame, fn *ssa.Function, a []value) (value, bool) {
+	// verifAdvanceCounter(sel, v): store v into the atomic.Uint32 captured by the closure sel.
+	v["verifAdvanceCounter"] = func(m *machine, fr *frame, fn *ssa.Function, a []value) (value, bool) {
+		c, ok := a[0].(*closure)
+		if !ok {
+			panic(unsupported("verifAdvanceCounter: not a closure"))
+		}
+		done := false
+		for i, fv := range c.fn.FreeVars {
+			if fv.Type().String() == "*sync/atomic.Uint32" {
+				p := c.env[i].(ptr)
+				st := (*p.c).(structure)
+				st[len(st)-1] = a[1]
+				done = true
+			}
+		}
+		if !done {
+			panic(unsupported("verifAdvanceCounter: closure captures no *atomic.Uint32"))
+		}
+		return nil, true
+	}
+	v["verifFail"] =func(m *machine, fr *frame, fn *ssa.Function, a []value) (value, bool) {
 		m.asserts++
 		m.violation(fr, "assertion failed: "+m.formatValue(fr, a[0], 'v'))
 		return nil, true
